@@ -77,6 +77,17 @@ CLAIMED["C08"] = (SCHED_TECH,
     "also when the dependent is enqueued after its dependency failed. Tie: trace conformance; multierr.Errors identities as multisets on the real scheduler.",
     SCHED_NOTE + " The forwarding of the ContinueOnError expression by generated code is checked on generated code (C10).", "DESIGN.md §7 C08")
 
+CLAIMED["C14"] = (
+    "Coq proof about an executable model of compileFlow's checks (depth-first cycle search proved sound and complete by induction on fuel with a pigeonhole bound) + differential correspondence with the real cff on generated flows and mutations",
+    "Partial, labelled so. For every flow (any graph, any option order): the model's checks for duplicate Params, output-less tasks/Invoke, duplicate providers, unused "
+    "outputs are proved equivalent to the declarative rules, and the cycle search is proved to report a cycle exactly when the needs-relation has one, whatever its "
+    "length and whether it runs through task or predicate parameters (C14_cycle); C14_sound_partial collects what every accepted flow satisfies. The two checks made by "
+    "the provider walk (no provider / unused input) are modelled and compared, but their equivalence with the declarative rules is not proved yet. Tie: accept/reject, "
+    "diagnostic classes and presence of the output file of the real cff against the model and against the independent boolean rules wf_b, one flow per file; Slice/Map "
+    "element/key/value types against a lattice of assignable and non-assignable pairs in both directions.",
+    "Trusted: Coq kernel; extraction + driver; the flow generator (its abstract program is the model's input and the Go text the tool's input); go/types identity and "
+    "assignability are Go library code (types are atoms in the model); unsupported signatures are outside the model.", "DESIGN.md §7 C14")
+
 ALL = ["C%02d" % i for i in range(1, 21)]
 
 NOT_YET = "check not built yet in this snapshot of /verif (work in progress per DESIGN.md §10); nothing is claimed for it at this commit"
